@@ -46,7 +46,7 @@ class Gen:
     """layout: 0 canonical, 1 mild, 2 wild.  crlf: line endings.  profile: weights of item kinds."""
 
     def __init__(self, g, layout=1, crlf=False, p_doc=0.5, max_depth=3, max_items=6, malformed=0.0,
-                 weights=None, doc_lines=None, idents=None, lg=None, doc_blocks=None, p_gap=0.12, p_docimpl=0.0):
+                 weights=None, doc_lines=None, idents=None, lg=None, doc_blocks=None, p_gap=0.12, p_docimpl=0.0, p_dup=0.0):
         # g decides the module's content (its token sequence); lg decides only the layout, so the same content seed
         # with different layout seeds yields layout variants of one module
         self.g = g; self.lg = lg if lg is not None else g; self.layout = layout; self.crlf = crlf; self.p_doc = p_doc; self.max_depth = max_depth
@@ -54,7 +54,7 @@ class Gen:
         self.weights = weights or {}
         self.doc_lines = doc_lines or DOC_LINES
         self.doc_blocks = doc_blocks
-        self.p_gap = p_gap; self.p_docimpl = p_docimpl
+        self.p_gap = p_gap; self.p_docimpl = p_docimpl; self.p_dup = p_dup
         self.idents = idents or IDENTS
         self.n_items = 0
 
@@ -231,6 +231,13 @@ class Gen:
                 self._after_doc(out[-1])
             else:
                 out.append(it)
+        if self.p_dup and len(out) >= 2 and g.random() < self.p_dup:
+            # the same element written twice (same name, arguments and doccomment), e.g. one definition per branch of an if()/else():
+            # every occurrence is a command of its own
+            import copy
+            cands = [i for i in range(1, len(out)) if out[i]['k'] != 'dangling']
+            if cands:
+                i = g.choice(cands); out.insert(g.randint(i + 1, len(out)), copy.deepcopy(out[i]))
         # a dangling doccomment must be followed by another doccomment or the end of the enclosing list's text:
         # keep it well-formed by giving the next item a doccomment, or by moving it to the very end of the module
         fixed = []
